@@ -99,6 +99,11 @@ pub fn calculate_next_work(net: Net, base_bits: u32, last_time: u32, first_time:
 /// GetNextWorkRequired for a header with timestamp `time` on top of the block at
 /// `prev_height`; `at(h)` returns the header at height h of that chain (h <= prev_height).
 pub fn next_work_required(net: Net, prev_height: u32, time: u32, at: &dyn Fn(u32) -> Hdr) -> u32 {
+    next_work_required_ext(net, enforce_bip94(net), prev_height, time, at)
+}
+
+/// Same with an explicit BIP94 switch (`bip94 = false` on the testnet parameters = testnet3).
+pub fn next_work_required_ext(net: Net, bip94: bool, prev_height: u32, time: u32, at: &dyn Fn(u32) -> Hdr) -> u32 {
     let limit_bits = to_compact(&pow_limit(net));
     let prev = at(prev_height);
     let height = prev_height + 1;
@@ -123,7 +128,7 @@ pub fn next_work_required(net: Net, prev_height: u32, time: u32, at: &dyn Fn(u32
         return prev.bits;
     }
     let first = at(height - INTERVAL);
-    let base = if enforce_bip94(net) { first.bits } else { prev.bits };
+    let base = if bip94 { first.bits } else { prev.bits };
     calculate_next_work(net, base, prev.time, first.time)
 }
 
